@@ -9,7 +9,8 @@ from . import c06
 
 UNITS = ['sdk/src/metrics/instrument_metadata_validator.cc', 'sdk/src/metrics/meter.cc', 'sdk/src/trace/tracer.cc',
          'sdk/src/logs/logger.cc', 'sdk/src/trace/tracer_provider.cc', 'sdk/src/metrics/meter_provider.cc',
-         'sdk/src/logs/logger_provider.cc', 'sdk/src/metrics/state/temporal_metric_storage.cc', 'sdk/src/metrics/state/sync_metric_storage.cc']
+         'sdk/src/logs/logger_provider.cc', 'sdk/src/metrics/state/temporal_metric_storage.cc', 'sdk/src/metrics/state/sync_metric_storage.cc',
+         'sdk/src/metrics/state/metric_collector.cc', 'sdk/src/metrics/meter_context.cc']
 DRIVERS = ['metrics_headers.cc']
 CANARIES = ['c19_canary.cc']
 
@@ -575,6 +576,24 @@ def rule_r6(ck, prog, rule='C19.R6'):
         rm = [n for n in f.nodes if n['k'] == 'call' and strip_targs(n.get('c', '')) == 'std::regex_match']
         ok = len(rm) == 1
         ck.verdict(ok, rule, f, '%s-uses-regex_match' % nm, rm[0] if rm else None, 'whole-string regex_match' if ok else '%s does not decide by a whole-string regex_match (regex_search would accept any name containing a valid one)' % nm)
+    # the exact selector is whole-string equality (unit, meter name / version / schema selectors all go through it)
+    f = prog.function('sdk::metrics::ExactPredicate::Match')
+    eqs = [n for n in f.nodes if n['k'] == 'call' and n.get('op') in ('==', '!=')]
+    bounded = [n for n in f.nodes if n['k'] == 'call' and strip_targs(n.get('c', '')).rsplit('::', 1)[-1] in ('compare', 'strncmp', 'memcmp', 'starts_with', 'find', 'rfind') and
+               len(n.get('args', [])) >= 2]
+    if bounded and not eqs:
+        ck.violation(rule, f, 'exact-selector-is-equality', bounded[0],
+                     'ExactPredicate::Match decides by a comparison bounded by a length (%s): every proper prefix of the selector (also the empty text) matches - a view for unit "ms" applies to unit "m", a meter selector "http.server" to meter "http"' % strip_targs(bounded[0]['c']).rsplit('::', 1)[-1])
+    elif not eqs:
+        ck.inconclusive(rule, f, 'exact-selector-is-equality', None, 'the exact predicate is not written as an equality of the pattern and the candidate')
+    else:
+        from ..symb import returns_under_pins as _rup, T as _T, F as _F
+        g_ = Graph(prog, f, inline=None, sync_lambdas=False)
+        r_eq = _rup(g_, {n['i']: (n['op'] == '==') for n in eqs})
+        r_ne = _rup(g_, {n['i']: (n['op'] != '==') for n in eqs})
+        ok = r_eq == {_T} and r_ne == {_F}
+        ck.verdict(ok, rule, f, 'exact-selector-is-equality', eqs[0], 'true exactly when pattern and candidate are equal' if ok else
+                   'ExactPredicate::Match does not return the result of the equality of pattern and candidate')
     # so does the pattern selector of a view: a pattern that matches a *part* of a name would select every instrument containing it
     f = prog.function('sdk::metrics::PatternPredicate::Match')
     calls = [n for n in f.nodes if n['k'] == 'call' and strip_targs(n.get('c', '')).startswith('std::regex_')]
@@ -665,6 +684,49 @@ def rule_r3_descriptor_copy(ck, prog, rule='C19.R3'):
     return cnt
 
 
+def rule_r3_descriptor_reaches_storage(ck, prog, rule='C19.R3'):
+    """the view's name and description shape the stream of every instrument kind: the descriptor handed to the storage that each
+    per-view callback of Register*MetricStorage builds is the per-view copy the view's name / description were written into -
+    not the instrument's own descriptor (a storage built from that keeps the instrument's name: the view renames nothing)"""
+    cnt = 0
+    for name in ('RegisterSyncMetricStorage', 'RegisterAsyncMetricStorage'):
+        for host in prog.functions('sdk::metrics::Meter::' + name):
+            for lf0 in [x for x in prog.funcs.values() if x.d.get('lambda') and x.d.get('parent') == host.key]:
+                for (lf, _vid) in _view_hosts(prog, lf0):
+                    cons = [n for n in lf.nodes if n['k'] == 'construct' and strip_targs(n.get('c', '')).rsplit('::', 1)[-1] in ('SyncMetricStorage', 'AsyncMetricStorage') and
+                            not n.get('copymove')]
+                    if not cons:
+                        continue
+                    # the descriptor variables the view writes into (name_ / description_ assigned from the view)
+                    written = set()
+                    for n in lf.nodes:
+                        lhs = n['lhs'] if (n['k'] == 'binop' and n['op'] == '=') else (n.get('obj') if (n['k'] == 'call' and n.get('op') == '=') else None)
+                        if lhs is None:
+                            continue
+                        m = strip_casts(lf, lhs)
+                        for _ in range(6):
+                            if m['k'] == 'member' and m.get('base') is not None:
+                                m = strip_casts(lf, m['base'])
+                            else:
+                                break
+                        if m['k'] == 'ref' and 'InstrumentDescriptor' in (m.get('t') or ''):
+                            written.add(m['id'])
+                    for n in cons:
+                        descs = [strip_casts(lf, a) for a in n.get('args', []) if a is not None and a >= 0 and 'InstrumentDescriptor' in (lf.nodes[a].get('t') or '')]
+                        cnt += 1
+                        if not written or not descs:
+                            ck.inconclusive(rule, lf, 'view-descriptor-reaches-storage@%s' % name, n, 'the per-view descriptor copy / the descriptor argument of the storage was not identified')
+                            continue
+                        ok = all(d['k'] == 'ref' and d.get('id') in written for d in descs)
+                        ck.verdict(ok, rule, lf, 'view-descriptor-reaches-storage@%s' % name, n,
+                                   'the storage is built from the descriptor the view\'s name / description were written into' if ok else
+                                   '%s builds the storage from %s instead of the per-view descriptor copy: the name and description of a matching view are dropped for this kind of instrument' % (
+                                       name, ', '.join(d.get('name', '?') for d in descs)))
+    if cnt < 2:
+        raise AnalysisBroken('storage constructions in the per-view callbacks of Register*MetricStorage not found')
+    return cnt
+
+
 def rule_r3_filter_reaches_storage(ck, prog, rule='C19.R3'):
     """the view's attribute filter shapes the stream of every instrument the view matches: the storage built in each per-view
     callback of Register*MetricStorage receives view.GetAttributesProcessor() (a storage built without it keeps every attribute
@@ -690,10 +752,10 @@ def rule_r3_filter_reaches_storage(ck, prog, rule='C19.R3'):
 def run(ck, prog):
     ck.doc('C19.R1', 'no string_view::data() into a call without the view\'s length', 10)
     ck.doc('C19.R2', 'Create*: enabled and ValidateInstrument gates; descriptor table; tracer/logger enabled gates', 26)
-    ck.doc('C19.R3', 'MatchMeter / MatchInstrument decision tables; FindViews visits all; default view only when none matched; view shapes storage; each view shapes its own descriptor copy; the view\'s attribute filter reaches the storage', 10)
+    ck.doc('C19.R3', 'MatchMeter / MatchInstrument decision tables; FindViews visits all; default view only when none matched; view shapes storage; each view shapes its own descriptor copy, which - like the view\'s attribute filter - reaches the storage', 12)
     ck.doc('C19.R4', 'scope configurator: first match wins; stored closures own their captures; Build leaves the builder intact', 4)
     ck.doc('C19.R5', 'GetTracer/GetMeter/GetLogger: locked lookup-then-create on the stored identity', 6)
-    ck.doc('C19.R6', 'name/unit patterns equal the documented grammar (parsed normal form, exhaustive byte sets); validators and the pattern selector match the whole string', 5)
+    ck.doc('C19.R6', 'name/unit patterns equal the documented grammar (parsed normal form, exhaustive byte sets); validators, the pattern selector and the exact selector match the whole string', 6)
     ck.doc('C19.R7', 'every named constructor parameter of the providers and their contexts is used (configuration reaches the context)', 6)
     ck.doc('C06.R5', '(shared rule, see C06) registry writes in the per-view callback use a view-dependent key', 2)
     ck.doc('C07.R5', '(shared rule, see C07) the view\'s aggregation config reaches every CreateAggregation call of a storage', 2)
@@ -712,6 +774,10 @@ def run(ck, prog):
     if not rule_r3_descriptor_copy(ck, prog):
         raise AnalysisBroken('no per-view callback of Register*MetricStorage writes a descriptor')
     rule_r3_filter_reaches_storage(ck, prog)
+    rule_r3_descriptor_reaches_storage(ck, prog)
+    # "differently named scopes are unaffected": the collection visits every meter whatever an earlier one produced (see C06.R7)
+    ck.doc('C06.R7', '(shared rule, see C06) collection fan-in: every meter and every storage is visited; iteration callbacks never ask to stop', 3)
+    c06.rule_r7(ck, prog)
     c06.rule_r5(ck, prog)
     from . import c07
     c07.rule_r5(ck, prog)
